@@ -88,6 +88,90 @@ def teval(t, env, hooks=None):
                 return slice(*vals)
             except Exception:
                 return UNKNOWN
+        # ---- strings: concatenation, f-strings, str(), "..".format(..), "%"-formatting, os.path.join, split / join
+        if k == "op" and x[1] == "concat":
+            vals = [rec(a) for a in x[2]]
+            if any(v is UNKNOWN or v is RAISES for v in vals):
+                return UNKNOWN
+            if all(isinstance(v, str) for v in vals):
+                return "".join(vals)
+            if all(isinstance(v, tuple) for v in vals):
+                return tuple(y for v in vals for y in v)
+            return UNKNOWN
+        if k == "op" and x[1] == "repeat" and len(x[2]) == 2:
+            a_, b_ = rec(x[2][0]), rec(x[2][1])
+            if isinstance(b_, (tuple, str)) and isinstance(a_, int):
+                a_, b_ = b_, a_
+            if isinstance(a_, (tuple, str)) and isinstance(b_, int) and not isinstance(b_, bool) and b_ < 64:
+                return a_ * b_
+            return UNKNOWN
+        if k == "fstr":
+            out_ = []
+            for part in x[1]:
+                if part[0] == "const":
+                    out_.append(str(part[1]))
+                    continue
+                v_ = rec(part[2][0])
+                sp_ = rec(part[2][1])
+                if v_ is UNKNOWN or v_ is RAISES or sp_ is UNKNOWN or not isinstance(v_, (int, float, str, bool)):
+                    return UNKNOWN
+                try:
+                    out_.append(format(v_, sp_ or ""))
+                except Exception:
+                    return UNKNOWN
+            return "".join(out_)
+        if k == "op" and x[1] == "mod" and len(x[2]) == 2:
+            a_, b_ = rec(x[2][0]), rec(x[2][1])
+            if isinstance(a_, str) and b_ is not UNKNOWN and b_ is not RAISES:
+                try:
+                    return a_ % b_
+                except Exception:
+                    return UNKNOWN
+        if k == "call" and not [kw for kw in x[3] if kw[0] == "**"]:
+            callee_s = None
+            if x[1] == ("sym", "str") and len(x[2]) == 1 and not x[3]:
+                v_ = rec(x[2][0])
+                return str(v_) if isinstance(v_, (int, str, bool)) and v_ is not UNKNOWN else UNKNOWN
+            if x[1][0] == "attr" and x[1][2] in ("format", "split", "join", "lower", "upper", "strip", "lstrip", "rstrip", "replace", "zfill"):
+                recv_ = rec(x[1][1])
+                if isinstance(recv_, str):
+                    args_ = []
+                    for a in x[2]:
+                        if a[0] == "star":
+                            sv = rec(a[1])
+                            if not isinstance(sv, tuple):
+                                return UNKNOWN
+                            args_.extend(sv)
+                        else:
+                            args_.append(rec(a))
+                    kws_ = {kw[0]: rec(kw[1]) for kw in x[3]}
+                    if any(v is UNKNOWN or v is RAISES for v in list(args_) + list(kws_.values())):
+                        return UNKNOWN
+                    try:
+                        r_ = getattr(recv_, x[1][2])(*args_, **kws_)
+                    except (IndexError, KeyError):
+                        return RAISES
+                    except Exception:
+                        return UNKNOWN
+                    return tuple(r_) if isinstance(r_, list) else r_
+            if x[1][0] == "attr" and x[1][2] in ("join", "dirname", "basename", "splitext", "split", "normpath", "relpath") and x[1][1] in (("attr", ("sym", "os"), "path"), ("sym", "posixpath")) and not x[3]:
+                args_ = []
+                for a in x[2]:
+                    if a[0] == "star":
+                        sv = rec(a[1])
+                        if not isinstance(sv, tuple):
+                            return UNKNOWN
+                        args_.extend(sv)
+                    else:
+                        args_.append(rec(a))
+                if not args_ or any(not isinstance(v, str) for v in args_):
+                    return UNKNOWN
+                import posixpath
+                try:
+                    r_ = getattr(posixpath, x[1][2])(*args_)
+                except Exception:
+                    return UNKNOWN
+                return tuple(r_) if isinstance(r_, (list, tuple)) else r_
         if k == "call" and x[1] == ("sym", "filter") and len(x[2]) == 2 and x[2][0] == ("const", None) and not x[3]:
             seq_ = rec(x[2][1])
             if seq_ is UNKNOWN or seq_ is RAISES:
@@ -122,6 +206,8 @@ def teval(t, env, hooks=None):
                         return UNKNOWN
                     out_.append(v_)
             return tuple(out_)
+        if k == "attr" and x[1] == ("sym", "os") and x[2] == "sep":
+            return "/"
         if k == "attr":
             b_ = rec(x[1])
             if b_ is UNKNOWN or isinstance(b_, (int, float, str, tuple, type(None), Fraction)):
